@@ -330,6 +330,80 @@ mod tests {
     }
 }
 
+/// a `Buf` made of several chunks (what h3 decodes from when the bytes arrived in several reads)
+#[derive(Clone)]
+pub struct Segs(pub std::collections::VecDeque<bytes::Bytes>);
+
+impl Segs {
+    /// `b` cut at the given offsets (empty segments are dropped, like a transport would)
+    pub fn new(b: &[u8], cuts: &[usize]) -> Segs {
+        let mut v = std::collections::VecDeque::new();
+        let mut last = 0;
+        for c in cuts.iter().copied().chain([b.len()]) {
+            let c = c.min(b.len()).max(last);
+            if c > last {
+                v.push_back(bytes::Bytes::copy_from_slice(&b[last..c]));
+            }
+            last = c;
+        }
+        Segs(v)
+    }
+}
+
+impl bytes::Buf for Segs {
+    fn remaining(&self) -> usize {
+        self.0.iter().map(|c| c.len()).sum()
+    }
+    fn chunk(&self) -> &[u8] {
+        self.0.front().map(|c| &c[..]).unwrap_or(&[])
+    }
+    fn advance(&mut self, mut cnt: usize) {
+        while cnt > 0 {
+            let f = self.0.front_mut().expect("advance past the end");
+            if cnt < f.len() {
+                f.advance(cnt);
+                return;
+            }
+            cnt -= f.len();
+            self.0.pop_front();
+        }
+    }
+}
+
+
+impl Segs {
+    /// everything that is left, as one vector
+    pub fn drain_all(&self) -> Vec<u8> {
+        self.0.iter().flat_map(|c| c.iter().copied()).collect()
+    }
+}
+
+/// cut sets under which a decoder is re-run on `b` handed over in pieces: a pseudo-random pair of cuts derived from the
+/// bytes themselves (every input gets one), every single cut for short inputs, one byte per chunk for inputs up to 24 bytes
+pub fn cut_sets(b: &[u8]) -> Vec<Vec<usize>> {
+    let n = b.len();
+    let mut out = Vec::new();
+    if n < 2 {
+        return out;
+    }
+    let mut h = 0xcbf2_9ce4_8422_2325u64;
+    for x in b.iter().take(64) {
+        h = (h ^ *x as u64).wrapping_mul(0x100_0000_01b3);
+    }
+    let r = splitmix(h ^ n as u64);
+    let (a, c) = ((r % n as u64) as usize, ((r >> 32) % (n as u64 + 1)) as usize);
+    out.push(vec![a.min(c), a.max(c)]);
+    if n <= 10 {
+        for k in 1..n {
+            out.push(vec![k]);
+        }
+    }
+    if n <= 24 {
+        out.push((1..n).collect());
+    }
+    out
+}
+
 /// deterministic pseudo-random tape (used by exhaustive tiers that want varied but seed independent schedules)
 pub fn prf_cells(seed: u64, n: usize) -> Vec<u16> {
     let b = prf_bytes(seed, n * 2);
